@@ -236,7 +236,7 @@ prop('C07',
 
 prop('C11',
      [('R15', ti.r15_tie_funnel), ('R17', ti.r17_single_from_breaktie), ('R05', cf.r05_status_ownership),
-      ('R28', ps.r28_strip_complete), ('R26', ps.r26_cid_sanitiser), ('R16', ti.r16_extremum_polarity)],
+      ('R28', ps.r28_strip_complete), ('R26', ps.r26_cid_sanitiser), ('R16', ti.r16_extremum_polarity), ('R03b', bt.r03b_defeat_remaining)],
      'Static analysis of /repo source: candidates are singled out for a decision only through the declared tie order (never '
      'by position, id or ballot order); withdrawn candidates are never in a selection that receives an action; every '
      'withdrawn id is removed from every rank at parse time; only validated ids can be marked withdrawn. ' + NOT_BEHAVIOUR,
